@@ -185,11 +185,15 @@ class Inst:
             out[s.name] = (s.str_value, s.visibility, tuple(s.assignable), s.config_string, bool(s._write_to_conf))
         return out
 
-    def choice_obs(self) -> List[tuple]:
+    def choice_obs(self, full: bool = False) -> List[tuple]:
+        """full=True: every memoised / derived attribute of the choice object itself (assignable, mode) as well"""
         out = []
         for c in self.k.unique_choices:
             sel = c.selection
-            out.append((c.name, sel.name if sel is not None else None, c.visibility))
+            t = (c.name, sel.name if sel is not None else None, c.visibility)
+            if full:
+                t += (tuple(c.assignable), c.str_value, c.bool_value)
+            out.append(t)
         return out
 
     def user_state(self) -> Tuple[tuple, tuple]:
@@ -250,6 +254,20 @@ def read_sym(s) -> tuple:
     return (s.str_value, s.visibility, tuple(s.assignable), s.config_string)
 
 
+CHOICE_FIELDS = ("visibility", "selection", "assignable", "str_value", "bool_value")
+
+
+def read_choice_field(c, field: str) -> Any:
+    if field not in CHOICE_FIELDS:
+        raise ValueError(field)
+    v = getattr(c, field)
+    if field == "selection":
+        return v.name if v is not None else None
+    if field == "assignable":
+        return tuple(v)
+    return v
+
+
 def apply_op(inst: "Inst", op: tuple, snapshots: Optional[List[str]] = None) -> Any:
     """Executes one operation through the entry points the tools use. Returns what the op observed (reads) or None."""
     k = inst.k
@@ -265,8 +283,11 @@ def apply_op(inst: "Inst", op: tuple, snapshots: Optional[List[str]] = None) -> 
     if kind == "resetc":
         core()._restore_default(k.unique_choices[op[1]].nodes[0])
         return None
-    if kind == "load":  # ("load", text, replace)
-        inst.load_text(op[1], replace=op[2])
+    if kind == "load":  # ("load", text, replace[, load_deprecated])
+        if len(op) > 3:
+            inst.load_text(op[1], replace=op[2], load_deprecated=bool(op[3]))
+        else:
+            inst.load_text(op[1], replace=op[2])
         return None
     if kind == "snap":  # write current configuration, remember the text
         t = inst.config_text()
@@ -285,6 +306,8 @@ def apply_op(inst: "Inst", op: tuple, snapshots: Optional[List[str]] = None) -> 
         c = k.unique_choices[op[1]]
         sel = c.selection
         return (sel.name if sel is not None else None, c.visibility)
+    if kind == "readcf":  # ("readcf", index, field): ONE memoised / derived attribute of a choice object
+        return read_choice_field(k.unique_choices[op[1]], op[2])
     if kind == "readall":
         return inst.obs()
     raise ValueError(op)
